@@ -131,6 +131,16 @@ pub fn run_connection(c: &Case, for_c04: bool) -> Outcome {
     }
     // completeness and configuration echo
     let s = h.borrow();
+    judge_server(&mut out, &s.server, c, for_c04);
+    out
+}
+
+/// order / completeness / identifier / configuration checks over what the reference server recorded
+pub fn judge_server(out: &mut Outcome, server: &refimpl::server::Server, c: &Case, for_c04: bool) {
+    struct W<'a> {
+        server: &'a refimpl::server::Server,
+    }
+    let s = W { server };
     let ev = &s.server.events;
     // a message the strict parsers reject is C04's business; for the order check it still counts as the message of its phase
     let kinds: Vec<String> = ev
@@ -151,11 +161,11 @@ pub fn run_connection(c: &Case, for_c04: bool) -> Outcome {
         want.push("disconnect".into());
         if kinds != want {
             out.fail("sequence:differs", format!("decoded client sequence {:?} expected {:?}", kinds, want));
-            return out;
+            return;
         }
         if s.server.phase != Phase::Closed {
             out.fail("sequence:no-disconnect", format!("server phase {:?} after shutdown", s.server.phase));
-            return out;
+            return;
         }
     }
     for (e, _) in ev.iter() {
@@ -192,11 +202,18 @@ pub fn run_connection(c: &Case, for_c04: bool) -> Outcome {
             _ => {}
         }
     }
-    out
 }
 
 fn report_violations(out: &mut Outcome, h: &mem::Handle, for_c04: bool) {
     let s = h.borrow();
+    report_server_violations(out, &s.server, for_c04)
+}
+
+pub fn report_server_violations(out: &mut Outcome, server: &refimpl::server::Server, for_c04: bool) {
+    struct W<'a> {
+        server: &'a refimpl::server::Server,
+    }
+    let s = W { server };
     for v in s.server.violations.iter() {
         let is_order = v.starts_with("order:") || v.starts_with("identifier:") || v.starts_with("dependency:");
         if for_c04 != is_order {
@@ -222,6 +239,94 @@ pub fn run(c: &Case) -> Outcome {
     out
 }
 
+/// the same oracle through the real entry point: Connector::connect over TLS (and CredSSP when NLA is selected)
+pub fn run_tls(c: &Case) -> Outcome {
+    use crate::tls::{self, FinalReply, NlaCfg, TlsServerCfg};
+    let mut out = Outcome::new();
+    out.nontrivial(true);
+    out.label(if c.profile.selected_protocol == 2 { "hybrid-selected" } else { "ssl-selected" });
+    let mut challenge = crate::props::c15::gen_challenge(&mut Src::new(&[c.profile.connect_id as u8, 7, 200, 3, 9, 120, 33]), true);
+    challenge.flags |= refimpl::ntlm::NEG_UNICODE;
+    let nt_hash = match &c.cfg.hash {
+        Some(h) => h.clone(),
+        None => refimpl::crypto::nt_hash(&c.cfg.password),
+    };
+    let scfg = TlsServerCfg {
+        identity: (c.profile.user_id % 4) as u8,
+        reply: refimpl::wire::NegReply::Response { flags: 0, selected: c.profile.selected_protocol },
+        nla: Some(NlaCfg { account_domain: c.cfg.domain.clone(), account_user: c.cfg.user.clone(), account_nt_hash: nt_hash, challenge, final_reply: FinalReply::Honest, challenge_override: None, ts_version: 2 }),
+        profile: c.profile.clone(),
+        record_cut: c.chunk,
+    };
+    let reads = 6 * c.profile.activations.len() - 1;
+    let run = tls::run_tls(&c.cfg, &scfg, reads, true, &mut |_| ());
+    if run.client_timeout || run.report.timeout {
+        out.fail("inconclusive:timeout", "a socket timeout hit; not counted as a violation");
+        return out;
+    }
+    match &run.connect {
+        Res::Ok(()) => {}
+        Res::Err(e) => {
+            out.fail("connect:tls:error", format!("Connector::connect failed against a conforming server: {}; tls {} nla {:?}/{:?}; server violations {:?}", e, run.report.tls_established, run.report.nla.negotiate_error, run.report.nla.verify_error, run.report.server.as_ref().map(|s| s.violations.clone())));
+            return out;
+        }
+        Res::Panic(p) => {
+            fail_panic(&mut out, "Connector::connect", p);
+            return out;
+        }
+    }
+    for r in run.reads.iter().chain(run.shutdown.iter()) {
+        match r {
+            Res::Ok(()) => {}
+            Res::Err(e) => {
+                out.fail("activation:tls:read-error", format!("read/shutdown failed against a conforming server: {}", e));
+                return out;
+            }
+            Res::Panic(p) => {
+                fail_panic(&mut out, "RdpClient::read", p);
+                return out;
+            }
+        }
+    }
+    match &run.report.cr {
+        Some(Ok(cr)) => {
+            let want = if c.cfg.nla { 3 } else { 1 };
+            if cr.neg.map(|n| n.1) != Some(want) {
+                out.fail("sequence:tls:negotiation-request", format!("negotiation request {:?}, expected requested protocols {:#x}", cr.neg, want));
+                return out;
+            }
+        }
+        other => {
+            out.fail("sequence:tls:negotiation-request", format!("connection request not parsed: {:?}", other));
+            return out;
+        }
+    }
+    if let Some(server) = &run.report.server {
+        report_server_violations(&mut out, server, false);
+        if !out.failed() {
+            judge_server(&mut out, server, c, false);
+        }
+    } else {
+        out.fail("sequence:tls:no-rdp-phase", "the RDP phase was not reached");
+    }
+    out
+}
+
+pub fn decode_tls(s: &mut Src) -> Case {
+    let mut c = decode(s);
+    // the offered mask must contain what the server selects
+    // (decided from bytes decoded early: late choices are often starved by short choice strings)
+    c.profile.selected_protocol = if c.cfg.nla && c.profile.user_id % 3 != 0 { 2 } else { 1 };
+    if c.cfg.user.is_empty() {
+        c.cfg.user = "user".into();
+    }
+    // identities the NTLM verifier can upper-case reliably (see C15)
+    c.cfg.user = crate::props::c15::gen_name(s, 10);
+    c.cfg.domain = crate::props::c15::gen_name(s, 10);
+    c.chunk = s.pick(&[0u16, 0, 1, 5, 1400]);
+    c
+}
+
 pub fn decode(s: &mut Src) -> Case {
     let mut cfg = gen_cfg(s);
     // C03's domain: names that fit the 15-character client name field are the common case; long / non-ASCII ones are C04's focus but still part of "every configuration"
@@ -241,6 +346,9 @@ pub fn check(rep: &Report) {
     }
     rep.list("golden", golden, run);
     rep.random("connections", rep.tier.n(30_000, 1_500_000), 220, decode, run);
+    crate::tls::pki();
+    rep.random("tls", rep.tier.n(400, 20_000), 260, decode_tls, run_tls);
+    rep.require("tls", "hybrid-selected", 40);
     rep.require("connections", "reactivation", 1000);
     rep.require("connections", "hybrid-selected", 1000);
     rep.require("connections", "user-id>=0x8000", 500);
